@@ -99,58 +99,58 @@ theorem simpleCmd_unmatched (rec : Rec) (n : Nat) (words : List String) (cwd : S
     dsimp only
     split
     · rfl
-    · split
-      · rfl
-      · have hmc : (withAllow w P pat).matchCommand (words.drop (skipAssign words)) cwd r
-            = w.matchCommand (words.drop (skipAssign words)) cwd r := by
-          simp [withAllow, hP]
-        simp only [hmc]
-        cases hm : w.matchCommand (List.drop (skipAssign words) words) cwd r with
-        | some m => rfl
-        | none =>
-          simp only
-          have hwr : (withAllow w P pat).wrapper = w.wrapper := rfl
-          rw [hwr]
-          split
-          · split
-            · rfl
-            · obtain ⟨j, hj⟩ := skipWrapperArgs_suffix ((words.drop (skipAssign words)).drop 1)
-              cases hs : skipWrapperArgs ((words.drop (skipAssign words)).drop 1) with
-              | nil => rfl
-              | cons a as =>
-                simp only
-                apply ih
-                intro k
-                rw [← hs, hj]
-                simp only [List.drop_drop]
-                exact hP _
-          · exact builtin_unchanged w P pat h rec _ cwd r
+    · have hmc : (withAllow w P pat).matchCommand words cwd r = w.matchCommand words cwd r := by
+        have := hP 0
+        simp only [List.drop_zero] at this
+        simp [withAllow, this]
+      simp only [hmc]
+      cases hm : w.matchCommand words cwd r with
+      | some m => rfl
+      | none =>
+        simp only
+        have hwr : (withAllow w P pat).wrapper = w.wrapper := rfl
+        rw [hwr]
+        split
+        · split
+          · rfl
+          · obtain ⟨j, hj⟩ := skipWrapperArgs_suffix (words.drop 1)
+            cases hs : skipWrapperArgs (words.drop 1) with
+            | nil => rfl
+            | cons a as =>
+              simp only
+              apply ih
+              intro k
+              rw [← hs, hj]
+              simp only [List.drop_drop]
+              exact hP _
+        · exact builtin_unchanged w P pat h rec _ cwd r
 
-theorem proper_atom_unmatched (rec : Rec) (words : List String) (cwd : String) (r : Bool)
+theorem proper_atom_unmatched (rec : Rec) (words : List String) (b : Nat) (cwd : String) (r : Bool)
     (hP : ∀ k, P (words.drop k) cwd r = false) :
-    atomDecisions (withAllow w P pat) rec h (.proper words cwd r) = atomDecisions w rec h (.proper words cwd r) := by
+    atomDecisions (withAllow w P pat) rec h (.proper words b cwd r) = atomDecisions w rec h (.proper words b cwd r) := by
   simp only [atomDecisions, properDecisions]
-  rw [simpleCmd_unmatched w P pat h rec _ words cwd r hP]
+  rw [simpleCmd_unmatched w P pat h rec _ (words.drop b) cwd r (by intro k; rw [List.drop_drop]; exact hP _)]
 
 /-- the command the rule does match: its command-proper atom is allowed … -/
-theorem proper_atom_matched (rec : Rec) (words : List String) (cwd : String) (r : Bool)
-    (hne : (words.drop (skipAssign words)).isEmpty = false)
-    (hP : P (words.drop (skipAssign words)) cwd r = true) :
-    S (atomDecisions (withAllow w P pat) rec h (.proper words cwd r)) = .allow := by
-  have hlen : skipAssign words < words.length := by
-    rcases Nat.lt_or_ge (skipAssign words) words.length with hc | hc
-    · exact hc
-    · have : words.drop (skipAssign words) = [] := List.drop_eq_nil_of_le hc
-      simp [this] at hne
+theorem proper_atom_matched (rec : Rec) (words : List String) (b : Nat) (cwd : String) (r : Bool)
+    (hlt : b < words.length)
+    (hP : P (words.drop b) cwd r = true) :
+    S (atomDecisions (withAllow w P pat) rec h (.proper words b cwd r)) = .allow := by
   have hw : words.isEmpty = false := by
     cases words with
-    | nil => simp at hlen
+    | nil => simp at hlt
     | cons _ _ => rfl
   simp only [atomDecisions, properDecisions, hw, Bool.false_eq_true, ↓reduceIte]
   split
   · simp [S]
-  · rw [simpleCmd]
-    simp only [hw, Bool.false_eq_true, ↓reduceIte, ge_iff_le, Nat.not_le.mpr hlen]
+  · simp only [ge_iff_le, Nat.not_le.mpr hlt, ↓reduceIte]
+    have hne : (words.drop b).isEmpty = false := by
+      have : (words.drop b).length > 0 := by rw [List.length_drop]; omega
+      cases hd : words.drop b with
+      | nil => rw [hd] at this; simp at this
+      | cons _ _ => rfl
+    rw [simpleCmd]
+    simp only [hne, Bool.false_eq_true, ↓reduceIte]
     simp [withAllow, hP, S]
 
 /-! ### … and nothing else of that command, or next to it, is suppressed -/
@@ -175,19 +175,19 @@ theorem redirect_survives (rec rec' : Rec) (n : Node) (cwd : String) (r : Bool) 
 /-- an unmatched sibling (or enclosing/enclosed command) keeps its old decision, which bounds
     the new verdict -/
 theorem unmatched_command_survives (rec : Rec) (n : Node) (cwd : String) (r : Bool)
-    (words : List String) (c : String) (rm : Bool)
-    (ha : Atom.proper words c rm ∈ flat w.syn n cwd r)
+    (words : List String) (b : Nat) (c : String) (rm : Bool)
+    (ha : Atom.proper words b c rm ∈ flat w.syn n cwd r)
     (hP : ∀ k, P (words.drop k) c rm = false)
-    (d : Decision) (hd : d ∈ atomDecisions w rec h (.proper words c rm)) :
+    (d : Decision) (hd : d ∈ atomDecisions w rec h (.proper words b c rm)) :
     d.action ≤ (aNode (withAllow w P pat) rec h n cwd r).action := by
   apply atom_survives w P pat h rec n cwd r _ ha d
-  rw [proper_atom_unmatched w P pat h rec words c rm hP]
+  rw [proper_atom_unmatched w P pat h rec words b c rm hP]
   exact hd
 
 /-- a tree none of whose commands the rule matches, and whose re-analysed texts are unaffected,
     is judged exactly as before -/
 theorem unmatched_tree_unchanged (rec : Rec) (n : Node) (cwd : String) (r : Bool)
-    (hP : ∀ words c rm, Atom.proper words c rm ∈ flat w.syn n cwd r → ∀ k, P (words.drop k) c rm = false) :
+    (hP : ∀ words b c rm, Atom.proper words b c rm ∈ flat w.syn n cwd r → ∀ k, P (words.drop k) c rm = false) :
     (aNode (withAllow w P pat) rec h n cwd r).action = (aNode w rec h n cwd r).action := by
   rw [verdict_after_rule, verdict_eq_leaves w rec h n cwd r]
   unfold leaves
@@ -195,7 +195,7 @@ theorem unmatched_tree_unchanged (rec : Rec) (n : Node) (cwd : String) (r : Bool
   apply flatMap_congr_mem
   intro a ha
   cases a with
-  | proper words c rm => exact proper_atom_unmatched w P pat h rec words c rm (hP words c rm ha)
+  | proper words b c rm => exact proper_atom_unmatched w P pat h rec words b c rm (hP words b c rm ha)
   | inject _ _ _ => rfl
   | redir _ _ _ => rfl
   | text _ _ _ => rfl
